@@ -143,6 +143,18 @@ def case32 (key : String) (a : List Int) : Option Case :=
                checkPairs 65536 p [r1, c1, r3, c3, r4, c4] [v, v, v] &&
                (if v ≥ 0 then checkPairs 65536 p [r2, c2] [v] else true)
              | _ => false }
+  | "m32u", [p, v] =>
+    let F := mk32 p
+    let r := initU64 F v
+    some { pre := admissible32 p && decide (0 ≤ v) && decide (v < 18446744073709551616)
+           model := [r, convert32 F r]
+           spec := fun o => checkPairs 65536 p o [v] }
+  | "m32z", [p, v] =>
+    let F := mk32 p
+    let r := initI64 F v
+    some { pre := admissible32 p
+           model := [r, convert32 F r]
+           spec := fun o => checkPairs 65536 p o [v] }
   | "m32h", p :: v0 :: v1 :: v2 :: v3 :: v4 :: steps =>
     let F := mk32 p
     let vs := [v0, v1, v2, v3, v4]
@@ -216,6 +228,77 @@ def caseR (key : String) (n : Nat) (a : List Int) : Option Case :=
     some { pre := admissibleR R p && inRange p vs
            model := raws ++ raws.map (convertR C)
            spec := specHist R p plain }
+  | "rmr", [p, c] =>
+    let C := mkA n p
+    let sgn := if rintNeg R c then c - R else c
+    let x1 := ctorRuintA C c
+    let x2 := ctorRintA C c
+    some { pre := admissibleR R p && decide (0 ≤ c) && decide (c < R)
+           model := [x1, getRuintA C x1, ctorRuintI p c, x1, getRuintA C x1, ctorRuintI p c,
+                     x2, getRuintA C x2, ctorRintI R p c, x2, getRuintA C x2, ctorRintI R p c,
+                     mgReduc C c, c % p, c % p, mgReduc C c]
+           spec := fun o => checkTriples R p (o.take 12) [c, c, sgn, sgn] &&
+             (match o.drop 12 with
+              | [t, u, u2, t2] =>
+                decide (0 ≤ t) && decide (t < p) && decide ((t * R) % p = c % p) && decide (u = c % p) && decide (u2 = c % p) && decide (t2 = t)
+              | _ => false) }
+  | "rmw", [p, t, v] =>
+    let C := mkA n p
+    let signed := decide (t ≤ 3) || decide (t = 8)
+    let lo : Int := if t = 0 then -128 else if t = 1 then -32768 else if t = 2 then -2147483648 else if t = 3 then -9223372036854775808
+                    else if t = 8 then -9223372036854775808 else 0
+    let hi : Int := if t = 0 then 127 else if t = 1 then 32767 else if t = 2 then 2147483647 else if t = 3 then 9223372036854775807
+                    else if t = 4 then 255 else if t = 5 then 65535 else if t = 6 then 4294967295 else if t = 7 then 18446744073709551615
+                    else 9223372036854775807
+    let x := if signed then ctorSignedA C v else toMgA C v
+    let y := if signed then ctorSignedI R p v else v % p
+    some { pre := admissibleR R p && decide (0 ≤ t) && decide (t ≤ 8) && decide (lo ≤ v) && decide (v ≤ hi)
+           model := [x, getRuintA C x, y, x, getRuintA C x, y]
+           spec := fun o => checkTriples R p o [v, v] }
+  | "rmz", [p, v] =>
+    let C := mkA n p
+    let x := mpzToA C v
+    some { pre := admissibleR R p
+           model := [x, getRuintA C x, mpzToI p v, getRuintA C x, mpzToI p v]
+           spec := fun o => match o with
+             | [r1, o1, v1, m1, m2] => checkTriples R p [r1, o1, v1] [v] && decide (m1 = v % p) && decide (m2 = v % p)
+             | _ => false }
+  | "rmq", [p, a, c] =>
+    let C := mkA n p
+    let A := toMgA C a
+    let e1 := eqScalarA C A c
+    let e2 := eqScalarI R p a c
+    let b2i (b : Bool) : Int := if b then 1 else 0
+    let e3 := if c ≥ 0 then decide (A = toMgA C c) else false
+    let e4 := if c ≥ 0 then decide (a = ctorRuintI p c) else false
+    some { pre := admissibleR R p && inRange p [a] && decide (-9223372036854775808 < c) && decide (c < 9223372036854775808)
+           model := [b2i e1, b2i e2, b2i e3, b2i e4]
+           spec := fun o => match o with
+             | [q1, q2, q3, q4] =>
+               -- the two variants must answer alike; for 0 ≤ c < p the answer is a = c
+               decide (q1 = q2) && decide (q3 = q4) &&
+               (if 0 ≤ c ∧ c < p then decide (q1 = b2i (decide (a = c))) && decide (q3 = b2i (decide (a = c))) else true)
+             | _ => false }
+  | "mrz", [p, v] =>
+    let C := mkR n p
+    let r := initZ C v
+    some { pre := admissibleR R p
+           model := [r, convertR C r, convertR C r]
+           spec := fun o => match o with
+             | [r1, c1, z1] => checkPairs R p [r1, c1] [v] && decide (z1 = v % p)
+             | _ => false }
+  | "mrw", [p, t, v] =>
+    let C := mkR n p
+    let lo : Int := if t = 0 then -128 else if t = 1 then -32768 else if t = 2 then -2147483648 else if t = 3 then -9223372036854775808
+                    else if t = 8 then -9223372036854775808 else 0
+    let hi : Int := if t = 0 then 127 else if t = 1 then 32767 else if t = 2 then 2147483647 else if t = 3 then 9223372036854775807
+                    else if t = 4 then 255 else if t = 5 then 65535 else if t = 6 then 4294967295 else if t = 7 then 18446744073709551615
+                    else if t = 8 then 9223372036854775807 else R - 1
+    let src := if t = 10 then (if rintNeg R v then v - R else v) else v
+    let r := if t = 8 then initZ C src else initR C src
+    some { pre := admissibleR R p && decide (0 ≤ t) && decide (t ≤ 10) && decide (lo ≤ v) && decide (v ≤ hi)
+           model := [r, convertR C r]
+           spec := fun o => checkPairs R p o [src] }
   | "rmk", [p] =>
     let C := mkA n p
     some { pre := admissibleR R p
